@@ -10,11 +10,14 @@ class P(vlib.Prop):
             "backend of another kind / close-delimited response closed cleanly after n bytes; one third leaning towards the hypotheses of c20_live) run "
             "against the real rangeRetryReader through a scripted http.RoundTripper, judged as the callers do (status 200 required); "
             "http stage: APK.FetchPackage against a real HTTP server (Content-Length / chunked / close-delimited responses) that resets or cleanly "
-            "closes connections after scripted byte counts, incl. after the last byte of a chunked body. "
+            "closes connections after scripted byte counts, incl. after the last byte of a chunked body; "
+            "index stage: fetchRepositoryIndex against the same server without a cache directory and with one (etag-keyed cache transport: HEAD, then the body streamed into a file "
+            "while the connection is cut at offset 0 / 1 / mid / last byte), every download followed by a fault-free one over the same cache directory, which must deliver the server's bytes. "
             "A case is non-trivial when its script contains at least one fault; distinct = distinct case terms.")
     stages = (
         dict(name="scripted", cmd="c20", args=lambda t, s: ["-stage", "scripted"]),
         dict(name="http", cmd="c20", args=lambda t, s: ["-stage", "http"]),
+        dict(name="index", cmd="c20", args=lambda t, s: ["-stage", "index"]),
     )
     assumptions = (
         "c20_faithful: every response is framed (Content-Length or chunked), so that net/http reports an early end of the connection as a non-EOF error; "
